@@ -100,7 +100,9 @@ func (k *checker) formatCase(idx int) {
 	var ferr error
 	key, msg, pan := core.Guard(func() { ferr = tool.FormatFiles(dir, ".ecal") })
 	if pan {
-		c.Violation("formatfiles-"+key, "tool.FormatFiles panicked", "fmt", idx, map[string]interface{}{"panic": trunc(msg, 1500), "files": fileList(files)})
+		// same key as a panic of parser.PrettyPrint in the library level check
+		c.Event("violation.pp-"+key, 1)
+		c.Violation("pp-"+key, "tool.FormatFiles panicked", "fmt", idx, map[string]interface{}{"panic": trunc(msg, 1500), "files": fileList(files)})
 		return
 	}
 	if ferr != nil {
